@@ -257,8 +257,14 @@ func visitInstr(fr *frame, instr ssa.Instruction) continuation {
 		store(mustDeref(instr.Addr.Type()), fr.get(instr.Addr).(*value), fr.get(instr.Val))
 
 	case *ssa.If:
+		cond := fr.get(instr.Cond)
+		if sc, ok := cond.(sym); ok {
+			if mergeIfChain(fr, instr, sc) {
+				return kJump
+			}
+		}
 		succ := 1
-		if fr.i.run.concBool(fr.get(instr.Cond), "if") {
+		if fr.i.run.concBool(cond, "if") {
 			succ = 0
 		}
 		fr.prevBlock, fr.block = fr.block, fr.block.Succs[succ]
@@ -331,6 +337,26 @@ func visitInstr(fr *frame, instr ssa.Instruction) continuation {
 	case *ssa.IndexAddr:
 		x := fr.get(instr.X)
 		idx := fr.get(instr.Index)
+		if si, ok := idx.(sym); ok && onlyLoaded(instr) {
+			// symbolic index used only for reading scalars: keep the choice symbolic
+			var elems []value
+			switch x := x.(type) {
+			case []value:
+				elems = x
+			case *value:
+				if x == nil {
+					panic(rtError("invalid memory address or nil pointer dereference"))
+				}
+				elems = []value((*x).(array))
+			}
+			if elems != nil && allScalars(elems) {
+				if !fr.i.run.decide(fr.i.run.inBounds(si, len(elems)), "index-in-range") {
+					panic(rtError(fmt.Sprintf("index out of range [symbolic] with length %d", len(elems))))
+				}
+				fr.env[instr] = symElemPtr{elems, si}
+				break
+			}
+		}
 		switch x := x.(type) {
 		case []value:
 			fr.env[instr] = &x[fr.i.run.index(idx, len(x))]
@@ -524,7 +550,7 @@ func callSSABody(i *interpreter, caller *frame, callpos token.Pos, fn *ssa.Funct
 			}
 		}
 		if fn.Blocks == nil {
-			i.run.abort("unsupported", "no code for function: "+fn.String())
+			i.run.abort("unsupported", "no code for function: "+fn.String()+" called from "+targetStack(caller))
 		}
 	}
 	fr.count = i.run.funcPtr(fn)
@@ -740,4 +766,189 @@ func (r *pathRun) classifyPanic(fr *frame, p any) any {
 		panic(pathAbort{"engine-panic", x + "\n" + string(debug.Stack())})
 	}
 	panic(pathAbort{"engine-panic", fmt.Sprintf("%T %v", p, p) + "\n" + string(debug.Stack())})
+}
+
+func targetStack(fr *frame) string {
+	var parts []string
+	for k := 0; fr != nil && k < 12; k++ {
+		parts = append(parts, fr.fn.String())
+		fr = fr.caller
+	}
+	return strings.Join(parts, " <- ")
+}
+
+// symElemPtr is &elems[idx] for a symbolic idx, produced only when every use of
+// the address is a load.
+type symElemPtr struct {
+	elems []value
+	idx   sym
+}
+
+func onlyLoaded(instr *ssa.IndexAddr) bool {
+	refs := instr.Referrers()
+	if refs == nil || len(*refs) == 0 {
+		return false
+	}
+	for _, r := range *refs {
+		u, ok := r.(*ssa.UnOp)
+		if !ok || u.Op != token.MUL {
+			if _, isDbg := r.(*ssa.DebugRef); isDbg {
+				continue
+			}
+			return false
+		}
+	}
+	return true
+}
+
+func allScalars(xs []value) bool {
+	if len(xs) == 0 || len(xs) > 300 {
+		return false
+	}
+	var k types.BasicKind
+	for i, x := range xs {
+		kk, ok := scalarKind(x)
+		if !ok || (i > 0 && kk != k) {
+			return false
+		}
+		k = kk
+	}
+	return true
+}
+
+// pureForMerge: instructions that can be executed speculatively (no effects, cannot fail).
+func pureForMerge(in ssa.Instruction) bool {
+	switch in := in.(type) {
+	case *ssa.BinOp:
+		switch in.Op {
+		case token.QUO, token.REM, token.SHL, token.SHR:
+			return false
+		}
+		switch in.X.Type().Underlying().(type) {
+		case *types.Basic:
+			return true
+		}
+		return false
+	case *ssa.UnOp:
+		return in.Op == token.NOT || in.Op == token.SUB || in.Op == token.XOR
+	case *ssa.Convert:
+		_, a := in.X.Type().Underlying().(*types.Basic)
+		b, c := in.Type().Underlying().(*types.Basic)
+		return a && c && b.Info()&types.IsInteger != 0
+	case *ssa.ChangeType, *ssa.DebugRef:
+		return true
+	}
+	return false
+}
+
+// mergeIfChain fuses chains of short-circuit tests that share a target
+// (a || b || c ..., a && b && c ...) into one decision over the disjunction /
+// conjunction, instead of one fork per test. Returns false if instr does not
+// start such a chain.
+func mergeIfChain(fr *frame, instr *ssa.If, first sym) bool {
+	cur := fr.block
+	c := fr.i.run.ctx
+	for _, common := range []int{0, 1} { // 0: shared true-target (OR chain), 1: shared false-target (AND chain)
+		target := cur.Succs[common]
+		next := cur.Succs[1-common]
+		var acc *Term = first.t
+		if common == 1 {
+			acc = first.t
+		}
+		last := cur
+		n := 1
+		for n < 200 {
+			if len(next.Preds) != 1 || len(next.Instrs) == 0 {
+				break
+			}
+			ifi, ok := next.Instrs[len(next.Instrs)-1].(*ssa.If)
+			if !ok || next.Succs[common] != target {
+				break
+			}
+			pure := true
+			for _, in := range next.Instrs[:len(next.Instrs)-1] {
+				if _, isPhi := in.(*ssa.Phi); isPhi || !pureForMerge(in) {
+					pure = false
+					break
+				}
+			}
+			if !pure || !samePhiInputs(target, cur, next) {
+				break
+			}
+			// speculative execution of the pure instructions of next
+			ok = func() (ok bool) {
+				defer func() {
+					if recover() != nil {
+						ok = false
+					}
+				}()
+				for _, in := range next.Instrs[:len(next.Instrs)-1] {
+					visitInstr(fr, in)
+				}
+				return true
+			}()
+			if !ok {
+				break
+			}
+			cv := fr.get(ifi.Cond)
+			var ct *Term
+			switch cv := cv.(type) {
+			case bool:
+				ct = c.Bool(cv)
+			case sym:
+				ct = cv.t
+			}
+			if common == 0 {
+				acc = c.Or(acc, ct)
+			} else {
+				acc = c.And(acc, ct)
+			}
+			last = next
+			next = next.Succs[1-common]
+			n++
+		}
+		if n == 1 {
+			continue
+		}
+		taken := fr.i.run.decide(acc, "if-chain")
+		if (common == 0) == taken {
+			// jumped to the shared target; its phis agree for every block of the chain
+			fr.prevBlock, fr.block = cur, target
+		} else {
+			fr.prevBlock, fr.block = last, next
+		}
+		return true
+	}
+	return false
+}
+
+// samePhiInputs: every phi of target receives the same SSA value from a and b.
+func samePhiInputs(target, a, b *ssa.BasicBlock) bool {
+	ia, ib := -1, -1
+	for k, p := range target.Preds {
+		if p == a {
+			ia = k
+		}
+		if p == b {
+			ib = k
+		}
+	}
+	if ia < 0 || ib < 0 {
+		return false
+	}
+	for _, in := range target.Instrs {
+		phi, ok := in.(*ssa.Phi)
+		if !ok {
+			break
+		}
+		if phi.Edges[ia] != phi.Edges[ib] {
+			ca, okA := phi.Edges[ia].(*ssa.Const)
+			cb, okB := phi.Edges[ib].(*ssa.Const)
+			if okA && okB && ca.Value != nil && cb.Value != nil && ca.Value.ExactString() == cb.Value.ExactString() && types.Identical(ca.Type(), cb.Type()) {
+				continue
+			}
+			return false
+		}
+	}
+	return true
 }
